@@ -4,7 +4,7 @@
    are errors of the run.  Statements only; proofs in Proofs/Errors.v, Proofs/ErrorsRun.v and
    Proofs/ErrorsFwd.v.  Model: Model/Errors.v (error terms, errors.Is / errors.As, the wrappers of
    compose/error.go, the run loop's error paths over a forest of nested graphs). *)
-From Eino Require Import Base.Util Model.Errors Proofs.Errors Proofs.ErrorsRun.
+From Eino Require Import Base.Util Model.Errors Proofs.Errors Proofs.ErrorsRun Proofs.ErrorsFwd Proofs.ErrorsMsg Proofs.ErrorsOrigin Proofs.ErrorsE2E.
 Open Scope string_scope.
 
 (* ------------------------------------------------------------------ the path *)
@@ -22,6 +22,15 @@ Theorem node_error_path : forall F stream d g items canc es e,
                forall par, np_of (top_error par e) = (p ++ np_of r)%list).
 Proof. exact node_error_path_lemma. Qed.
 Print Assumptions node_error_path.
+
+(* The same through the public API alone (the wrapper type is private: the message is the only
+   public carrier of the path): whenever a node failed (p is not empty), in every paradigm of the
+   caller the node path printed last in err.Error() is the path of the failing node. *)
+Theorem node_named_in_message : forall F stream g e p r,
+  reported F stream g e p r -> p <> [] -> is_interrupt_error r = false ->
+  forall par, msg_path (top_error par e) = (p ++ np_of r)%list.
+Proof. exact node_named_in_message_lemma. Qed.
+Print Assumptions node_named_in_message.
 
 (* ... and conversely a task that ends with an error is not swallowed: the step fails and that
    error, wrapped under the node's key, is among the legal answers (whatever the other tasks of
@@ -43,10 +52,71 @@ Definition ex_forest : forest :=
     mkGraph false [[NLam "n" FS (BFail (Wrapf (Leaf 0))); NLam "m" FI (BFail (Custom 1 7))]] false 0 ].
 
 Example node_error_path_nonvacuous :
-  map (fun a => match a with AErr e => (np_of e, is_ (Leaf 0) e, as_custom 1 e) | _ => ([], false, None) end)
+  map (fun a => match a with AErr e => (np_of e, msg_path e, is_ (Leaf 0) e, as_custom 1 e) | _ => ([], [], false, None) end)
       (answers ex_forest PStream false None)
-  = [ (["a"; "b"; "c"; "n"], true, None); (["a"; "b"; "c"; "m"], false, Some 7%N) ].
+  = [ (["a"; "b"; "c"; "n"], ["a"; "b"; "c"; "n"], true, None);
+      (["a"; "b"; "c"; "m"], ["a"; "b"; "c"; "m"], false, Some 7%N) ].
 Proof. vm_compute. reflexivity. Qed.
+
+(* End to end, by induction on the nesting depth: in every well-nested forest ([forward]: sub-graph
+   indices point forward, decided by [forwardb]), if going down from the top graph through
+   sub-graph nodes every graph reaches the stage of the next node of p (the stages before it
+   succeed, the step limit leaves a step) and the last node is a leaf whose task ends with the
+   non-interrupt error r ([fails_at]) — whatever the sibling nodes at every level do — then the
+   public call, in every paradigm, has among its legal answers the error r wrapped along exactly
+   p: the node path read off the wrapper and the one printed in the message are p (followed by
+   the path r itself carried, if it is the error of a graph the node body ran). *)
+Theorem failing_node_reported : forall g F' par p r,
+  forward (g :: F') -> fails_at (g :: F') (stream_of par) g p r ->
+  In (AErr (top_error par (wrap_path p r))) (answers (g :: F') par false None) /\
+  (is_interrupt_error r = false ->
+     msg_path (top_error par (wrap_path p r)) = (p ++ np_of r)%list /\
+     np_of (top_error par (wrap_path p r)) = (p ++ np_of r)%list).
+Proof. exact failing_node_reported_lemma. Qed.
+Print Assumptions failing_node_reported.
+
+(* a well-nested forest never runs out of nesting fuel: the distinguished out-of-fuel answer is
+   not an answer of the public call (the hypothesis any_fuel = false of the per-step theorems
+   holds on every stage of such a run, [stage_no_fuel]) *)
+Theorem answers_no_fuel : forall g F' par cb ii,
+  forward (g :: F') -> ~ In AFuel (answers (g :: F') par cb ii).
+Proof. exact answers_no_fuel_lemma. Qed.
+
+Theorem forwardb_decides : forall F, forwardb F = true -> forward F.
+Proof. exact forwardb_sound. Qed.
+
+Example failing_node_reported_nonvacuous :
+  forward ex_forest /\
+  fails_at ex_forest true (mkGraph false [[NLam "first" FI BOk]; [NSub "a" 1]] false 0)
+           ["a"; "b"; "c"; "n"] (wrap_stream TransformByStream (Wrapf (Leaf 0))).
+Proof.
+  split; [apply forwardb_sound; vm_compute; reflexivity|].
+  eapply (fa_sub _ _ _ [[NLam "first" FI BOk]] [NSub "a" 1%nat] [] "a" 1%nat);
+    [reflexivity|reflexivity|cbn; lia|left; reflexivity|reflexivity|].
+  eapply (fa_sub _ _ _ [] [NSub "b" 2%nat; NLam "side" FT BOk] [] "b" 2%nat);
+    [reflexivity|reflexivity|cbn; lia|left; reflexivity|reflexivity|].
+  eapply (fa_sub _ _ _ [] [NSub "c" 3%nat] [] "c" 3%nat);
+    [reflexivity|reflexivity|cbn; lia|left; reflexivity|reflexivity|].
+  eapply (fa_leaf _ _ _ [] _ [] (NLam "n" FS (BFail (Wrapf (Leaf 0)))));
+    [reflexivity|reflexivity|cbn; lia|left; reflexivity|reflexivity|reflexivity|left; reflexivity|reflexivity].
+Qed.
+
+(* Before the repair of F-C13c the two wrapping functions extended the wrapper they were given in
+   place.  An error item that is itself the error of a nested run, on a stream copied for two
+   parallel sub-graphs, was extended by both runs: the error returned carried the keys of both,
+   [sA; x2; x1; x] — not a path of nodes.  The legal answers name one real path each. *)
+Definition f13c_forest : forest :=
+  [ mkGraph false [[NLam "src" FS (BItem (Internal NodeRunError [] ["x"] (Leaf 0)))];
+                   [NSub "sA" 1; NSub "sB" 2]] false 0;
+    mkGraph false [[NLam "x1" FC BOk]] false 0;
+    mkGraph false [[NLam "x2" FC BOk]] false 0 ].
+
+Theorem shared_wrapper_v2_refuted :
+  let legal := map (fun a => match a with AErr e => msg_path e | _ => [] end)
+                   (answers f13c_forest PStream false None) in
+  legal = [ ["sA"; "x1"; "x"]; ["sB"; "x2"; "x"] ] /\
+  existsb (list_eqb String.eqb ["sA"; "x2"; "x1"; "x"]) legal = false.
+Proof. split; vm_compute; reflexivity. Qed.
 
 (* ------------------------------------------------------------------ recovering the original error *)
 
@@ -81,6 +151,36 @@ Proof. exact lambda_fail_shape. Qed.
 Theorem failing_tool_shape : forall stream u ts,
   exists ws, exec_tools stream [] (TFail u :: ts) = NErr [apply_ws ws u] /\ keys_of ws = [].
 Proof. exact tool_fail_shape. Qed.
+
+(* In full generality (every lambda flavour, value and stream mode, every behaviour, any input
+   stream, ToolsNode with any calls): whatever a leaf task ends with is one of its [origins] — the
+   error the body / a tool returned, a recovered panic, an error item of its input — under
+   framework wrappers that add no node key ... *)
+Theorem leaf_error_origin : forall stream items n es r,
+  is_leaf n = true -> exec_leaf stream items n = NErr es -> In r es ->
+  exists ws u, r = apply_ws ws u /\ keys_of ws = [] /\ In u (origins items n).
+Proof. exact leaf_origin_lemma. Qed.
+Print Assumptions leaf_error_origin.
+
+(* ... hence for every error a run returns because a leaf failed (any depth, any paradigm of the
+   caller) errors.Is / errors.As / the panic payload are exactly those of an origin. *)
+Theorem any_leaf_failure_recoverable : forall F stream g e p r items n es,
+  reported F stream g e p r ->
+  is_leaf n = true -> exec_leaf stream items n = NErr es -> In r es ->
+  exists u, In u (origins items n) /\
+    forall par,
+      (forall t, leaf_target t -> is_ t (top_error par e) = is_ t u) /\
+      (forall ty, as_custom ty (top_error par e) = as_custom ty u) /\
+      as_panic (top_error par e) = as_panic u.
+Proof. exact any_leaf_failure_recoverable_lemma. Qed.
+Print Assumptions any_leaf_failure_recoverable.
+
+Example leaf_error_origin_nonvacuous :
+  (* a collect-native consumer in stream mode whose input holds an error item and a panicking convert *)
+  exec_leaf true [IErr (Custom 1 4); ILazy 8] (NLam "c" FC BOk)
+    = NErr [wrap_stream TransformByCollect (Custom 1 4); PanicErr 8] /\
+  origins [IErr (Custom 1 4); ILazy 8] (NLam "c" FC BOk) = [Custom 1 4; PanicErr 8].
+Proof. split; vm_compute; reflexivity. Qed.
 
 Example orig_recoverable_nonvacuous :
   let u := Wrapf (Wrapf (Custom 0 3)) in
@@ -200,6 +300,49 @@ Theorem panic_contained_tools_run : forall F stream rec all loop k st rest key t
   (forall es e, exec_tools stream [] ts = NErr es -> In e es -> is_interrupt_task e = false) ->
   exists es, steps F stream rec all loop (S k) (st :: rest) [] false = GFail es /\ es <> [].
 Proof. exact panicking_tool_fails_run. Qed.
+
+(* A panic in a stream-forwarding goroutine (schema/stream.go toStream: every merge of two or more
+   streams puts convert readers and copy children behind one) becomes an error item: nothing that
+   panics when read comes out of a merge, the panic's payload is on the item, and ordinary error
+   items are handed on as they are. *)
+Theorem panic_contained_forwarder : forall m its, (2 <= m)%nat ->
+  no_lazy (fanin m its) /\
+  (forall i, In (ILazy i) its -> In (IErr (PanicErr i)) (fanin m its)) /\
+  (forall e, In (IErr e) its -> In (IErr e) (fanin m its)).
+Proof.
+  intros m its Hm. split; [apply fanin_contains_lemma; exact Hm|]. split.
+  - intros i. apply fanin_panic_item_lemma. exact Hm.
+  - intros e. apply fanin_keeps_items_lemma.
+Qed.
+Print Assumptions panic_contained_forwarder.
+
+(* the same for the merged output of ToolsNode.Stream with two or more tool calls *)
+Theorem panic_contained_tool_forwarder : forall ts, (2 <= List.length ts)%nat ->
+  no_lazy (tool_conv_panics ts) /\
+  forall i, In (TConvPanic i) ts -> In (IErr (PanicErr i)) (tool_conv_panics ts).
+Proof. exact tools_forwarder_lemma. Qed.
+
+(* Globally: in every forest of nested graphs, for every paradigm, input and cancellation,
+   whichever node bodies and tool calls panic (any number, any depth), no panic reaches the caller
+   of the run and no stream the caller gets panics when read.  (The hypothesis excludes only the
+   streams whose own convert function panics on the goroutine of whoever reads them — user code
+   running on the reader's goroutine, outside the three places the property names.) *)
+Theorem no_panic_escapes : forall F p cancel_before in_item,
+  conv_free F = true -> ~ In APanic (answers F p cancel_before in_item).
+Proof. exact no_panic_escapes_lemma. Qed.
+Print Assumptions no_panic_escapes.
+
+(* two parallel stream-native nodes, one with a panicking convert function, merged into END: the
+   caller reads an error item carrying the payload; with a single node the same stream panics on
+   the caller's goroutine (described by the model, outside the property, excluded above); the
+   nested example forest of the first section satisfies the hypothesis of [no_panic_escapes] *)
+Example forwarder_nonvacuous :
+  let F2 := [ mkGraph false [[NLam "a" FS (BConvPanic 5); NLam "b" FS BOk]] false 0 ] in
+  let F1 := [ mkGraph false [[NLam "a" FS (BConvPanic 5)]] false 0 ] in
+  (map (fun a => match a with AItem e => as_panic e | _ => None end) (answers F2 PStream false None),
+   answers F1 PStream false None, conv_free F2, conv_free ex_forest)
+  = ([Some 5%N], [APanic], false, true).
+Proof. vm_compute. reflexivity. Qed.
 
 Example panic_nonvacuous :
   let F := [ mkGraph false [[NSub "t" 1; NLam "q" FS (BPanic 4)]] false 0;
